@@ -128,7 +128,15 @@ def nontrivial(r):
 from .. import aiomix  # noqa: E402
 from . import c18 as _c18  # noqa: E402
 
-aiomix.install(globals(), 0.25, lambda rng: aiomix.stream(rng, _c18.scenarios), aiomix.c06_specs,
+def _aio_tweak(rng_, s):
+    # 12%: a job whose arguments cannot be rendered (repr raises) - it can still be run, counted and retired
+    for o in s["ops"]:
+        if o["op"] == "sch" and rng_.random() < 0.12:
+            o["badrepr"] = True
+    return s
+
+
+aiomix.install(globals(), 0.25, lambda rng: aiomix.stream(rng, _c18.scenarios, tweak=_aio_tweak), aiomix.c06_specs,
                note="C18-style histories (limits 50%, raising runs, deletions, coroutines using their scheduler); Spec: attempts and invocations <= max_attempts, exhausted => unregistered, registered => attempts remain, never back")
 
 
